@@ -74,6 +74,95 @@ type interpreter struct {
 	lastNow  *Term
 	notes    map[string]string
 	thorough bool
+	fnInfo   map[*ssa.Function]*fnInfo
+	regInfos map[*ssa.Function]*regInfo
+	regPool  [][][]value
+}
+
+// regInfo numbers the SSA values of a function (registers of a frame).
+type regInfo struct {
+	reg map[ssa.Value]int
+	n   int
+}
+
+func (i *interpreter) regInfo(fn *ssa.Function) *regInfo {
+	if ri, ok := i.regInfos[fn]; ok {
+		return ri
+	}
+	ri := &regInfo{reg: map[ssa.Value]int{}}
+	add := func(v ssa.Value) {
+		if _, ok := ri.reg[v]; !ok {
+			ri.reg[v] = ri.n
+			ri.n++
+		}
+	}
+	for _, p := range fn.Params {
+		add(p)
+	}
+	for _, fv := range fn.FreeVars {
+		add(fv)
+	}
+	for _, l := range fn.Locals {
+		add(l)
+	}
+	for _, b := range fn.Blocks {
+		for _, in := range b.Instrs {
+			if v, ok := in.(ssa.Value); ok {
+				add(v)
+			}
+		}
+	}
+	i.regInfos[fn] = ri
+	return ri
+}
+
+func regBucket(n int) int {
+	b := 0
+	for c := 8; c < n; c <<= 1 {
+		b++
+	}
+	return b
+}
+
+// getRegs returns a zeroed register file of length n from the worker's pool.
+func (i *interpreter) getRegs(n int) []value {
+	b := regBucket(n)
+	if b < len(i.regPool) {
+		if l := len(i.regPool[b]); l > 0 {
+			r := i.regPool[b][l-1]
+			i.regPool[b] = i.regPool[b][:l-1]
+			return r[:n]
+		}
+	}
+	return make([]value, n, 8<<b)
+}
+
+func (i *interpreter) putRegs(r []value) {
+	if r == nil {
+		return
+	}
+	r = r[:cap(r)]
+	clear(r)
+	b := regBucket(cap(r))
+	for len(i.regPool) <= b {
+		i.regPool = append(i.regPool, nil)
+	}
+	if len(i.regPool[b]) < 256 {
+		i.regPool[b] = append(i.regPool[b], r)
+	}
+}
+
+func (fr *frame) ix(v ssa.Value) int {
+	k, ok := fr.fi.reg[v]
+	if !ok {
+		panic(fmt.Sprintf("no register for %T %s in %s", v, v.Name(), fr.fn))
+	}
+	return k
+}
+
+type fnInfo struct {
+	name string
+	ext  externalFn
 }
 
 type deferred struct {
@@ -88,13 +177,15 @@ type frame struct {
 	caller           *frame
 	fn               *ssa.Function
 	block, prevBlock *ssa.BasicBlock
-	env              map[ssa.Value]value
+	regs             []value
+	fi               *regInfo
 	locals           []value
 	defers           *deferred
 	result           value
 	panicking        bool
 	panic            any
 	phitemps         []value
+	depth            int
 }
 
 func mustDeref(t types.Type) types.Type {
@@ -150,8 +241,10 @@ func (fr *frame) get(key ssa.Value) value {
 		fr.i.globals[key] = &cell
 		return &cell
 	}
-	if r, ok := fr.env[key]; ok {
-		return r
+	if k, ok := fr.fi.reg[key]; ok {
+		if r := fr.regs[k]; r != nil {
+			return r
+		}
 	}
 	panic(fmt.Sprintf("get: no value for %T: %v", key, key.Name()))
 }
@@ -174,9 +267,11 @@ func (i *interpreter) ensureInit(pkg *ssa.Package) {
 	i.logging = false
 	i.path = nil
 	i.initing++
+	savedDepth := i.depth
 	func() {
 		defer func() {
 			if r := recover(); r != nil {
+				i.depth = savedDepth
 				msg := fmt.Sprint(r)
 				if tp, ok := r.(targetPanic); ok {
 					msg = "panic: " + toString(tp.v)
@@ -300,35 +395,35 @@ func visitInstr(fr *frame, instr ssa.Instruction) continuation {
 		// no-op
 
 	case *ssa.UnOp:
-		fr.env[instr] = unop(fr, instr, fr.get(instr.X))
+		fr.regs[fr.ix(instr)] = unop(fr, instr, fr.get(instr.X))
 
 	case *ssa.BinOp:
-		fr.env[instr] = binop(i, instr.Op, instr.X.Type(), fr.get(instr.X), fr.get(instr.Y))
+		fr.regs[fr.ix(instr)] = binop(i, instr.Op, instr.X.Type(), fr.get(instr.X), fr.get(instr.Y))
 
 	case *ssa.Call:
 		fn, args := prepareCall(fr, &instr.Call)
-		fr.env[instr] = call(fr.i, fr, instr.Pos(), fn, args)
+		fr.regs[fr.ix(instr)] = call(fr.i, fr, instr.Pos(), fn, args)
 
 	case *ssa.ChangeInterface:
-		fr.env[instr] = fr.get(instr.X)
+		fr.regs[fr.ix(instr)] = fr.get(instr.X)
 
 	case *ssa.ChangeType:
-		fr.env[instr] = fr.get(instr.X)
+		fr.regs[fr.ix(instr)] = fr.get(instr.X)
 
 	case *ssa.Convert:
-		fr.env[instr] = conv(i, instr.Type(), instr.X.Type(), fr.get(instr.X))
+		fr.regs[fr.ix(instr)] = conv(i, instr.Type(), instr.X.Type(), fr.get(instr.X))
 
 	case *ssa.SliceToArrayPointer:
-		fr.env[instr] = sliceToArrayPointer(instr.Type(), instr.X.Type(), fr.get(instr.X))
+		fr.regs[fr.ix(instr)] = sliceToArrayPointer(instr.Type(), instr.X.Type(), fr.get(instr.X))
 
 	case *ssa.MakeInterface:
-		fr.env[instr] = iface{t: instr.X.Type(), v: fr.get(instr.X)}
+		fr.regs[fr.ix(instr)] = iface{t: instr.X.Type(), v: fr.get(instr.X)}
 
 	case *ssa.Extract:
-		fr.env[instr] = fr.get(instr.Tuple).(tuple)[instr.Index]
+		fr.regs[fr.ix(instr)] = fr.get(instr.Tuple).(tuple)[instr.Index]
 
 	case *ssa.Slice:
-		fr.env[instr] = slice(i, fr.get(instr.X), fr.get(instr.Low), fr.get(instr.High), fr.get(instr.Max))
+		fr.regs[fr.ix(instr)] = slice(i, fr.get(instr.X), fr.get(instr.Low), fr.get(instr.High), fr.get(instr.Max))
 
 	case *ssa.Return:
 		switch len(instr.Results) {
@@ -401,16 +496,16 @@ func visitInstr(fr *frame, instr ssa.Instruction) continuation {
 		panic(unsupported{"go statement in " + fr.fn.String() + " starting " + name})
 
 	case *ssa.MakeChan:
-		fr.env[instr] = &chanv{cap: int(i.concInt(fr.get(instr.Size)))}
+		fr.regs[fr.ix(instr)] = &chanv{cap: int(i.concInt(fr.get(instr.Size)))}
 
 	case *ssa.Alloc:
 		var addr *value
 		if instr.Heap {
 			addr = new(value)
-			fr.env[instr] = addr
+			fr.regs[fr.ix(instr)] = addr
 			*addr = zero(mustDeref(instr.Type()))
 		} else {
-			addr = fr.env[instr].(*value)
+			addr = fr.regs[fr.ix(instr)].(*value)
 			i.set(addr, zero(mustDeref(instr.Type())))
 		}
 
@@ -425,26 +520,26 @@ func visitInstr(fr *frame, instr ssa.Instruction) continuation {
 		for k := range slice {
 			slice[k] = zero(tElt)
 		}
-		fr.env[instr] = slice[:l]
+		fr.regs[fr.ix(instr)] = slice[:l]
 
 	case *ssa.MakeMap:
-		fr.env[instr] = newOMap(instr.Type().Underlying().(*types.Map).Key())
+		fr.regs[fr.ix(instr)] = newOMap(instr.Type().Underlying().(*types.Map).Key())
 
 	case *ssa.Range:
-		fr.env[instr] = rangeIter(i, fr.get(instr.X))
+		fr.regs[fr.ix(instr)] = rangeIter(i, fr.get(instr.X))
 
 	case *ssa.Next:
-		fr.env[instr] = fr.get(instr.Iter).(iter).next()
+		fr.regs[fr.ix(instr)] = fr.get(instr.Iter).(iter).next()
 
 	case *ssa.FieldAddr:
 		p := fr.get(instr.X).(*value)
 		if p == nil {
 			panic(targetPanic{"runtime error: invalid memory address or nil pointer dereference (field " + fieldName(instr) + " in " + fr.fn.String() + ")"})
 		}
-		fr.env[instr] = &(*p).(structure)[instr.Field]
+		fr.regs[fr.ix(instr)] = &(*p).(structure)[instr.Field]
 
 	case *ssa.Field:
-		fr.env[instr] = fr.get(instr.X).(structure)[instr.Field]
+		fr.regs[fr.ix(instr)] = fr.get(instr.X).(structure)[instr.Field]
 
 	case *ssa.IndexAddr:
 		x := fr.get(instr.X)
@@ -454,7 +549,7 @@ func visitInstr(fr *frame, instr ssa.Instruction) continuation {
 			if idx < 0 || idx >= int64(len(x)) {
 				panic(targetPanic{fmt.Sprintf("runtime error: index out of range [%d] with length %d", idx, len(x))})
 			}
-			fr.env[instr] = &x[idx]
+			fr.regs[fr.ix(instr)] = &x[idx]
 		case *value: // *array
 			if x == nil {
 				panic(targetPanic{"runtime error: nil array pointer dereference"})
@@ -463,7 +558,7 @@ func visitInstr(fr *frame, instr ssa.Instruction) continuation {
 			if idx < 0 || idx >= int64(len(a)) {
 				panic(targetPanic{fmt.Sprintf("runtime error: index out of range [%d] with length %d", idx, len(a))})
 			}
-			fr.env[instr] = &a[idx]
+			fr.regs[fr.ix(instr)] = &a[idx]
 		default:
 			panic(fmt.Sprintf("unexpected x type in IndexAddr: %T", x))
 		}
@@ -476,18 +571,18 @@ func visitInstr(fr *frame, instr ssa.Instruction) continuation {
 			if idx < 0 || idx >= int64(len(x)) {
 				panic(targetPanic{fmt.Sprintf("runtime error: index out of range [%d] with length %d", idx, len(x))})
 			}
-			fr.env[instr] = x[idx]
+			fr.regs[fr.ix(instr)] = x[idx]
 		case string, sstr:
 			if idx < 0 || idx >= int64(strLen(x)) {
 				panic(targetPanic{fmt.Sprintf("runtime error: index out of range [%d] with length %d", idx, strLen(x))})
 			}
-			fr.env[instr] = strByte(x, int(idx))
+			fr.regs[fr.ix(instr)] = strByte(x, int(idx))
 		default:
 			panic(fmt.Sprintf("unexpected x type in Index: %T", x))
 		}
 
 	case *ssa.Lookup:
-		fr.env[instr] = lookup(i, instr, fr.get(instr.X), fr.get(instr.Index))
+		fr.regs[fr.ix(instr)] = lookup(i, instr, fr.get(instr.X), fr.get(instr.Index))
 
 	case *ssa.MapUpdate:
 		m := fr.get(instr.Map).(*omap)
@@ -497,20 +592,20 @@ func visitInstr(fr *frame, instr ssa.Instruction) continuation {
 		m.insert(i, fr.get(instr.Key), fr.get(instr.Value))
 
 	case *ssa.TypeAssert:
-		fr.env[instr] = typeAssert(instr, fr.get(instr.X).(iface))
+		fr.regs[fr.ix(instr)] = typeAssert(instr, fr.get(instr.X).(iface))
 
 	case *ssa.MakeClosure:
 		var bindings []value
 		for _, binding := range instr.Bindings {
 			bindings = append(bindings, fr.get(binding))
 		}
-		fr.env[instr] = &closure{instr.Fn.(*ssa.Function), bindings}
+		fr.regs[fr.ix(instr)] = &closure{instr.Fn.(*ssa.Function), bindings}
 
 	case *ssa.Phi:
 		panic("unreachable: phi")
 
 	case *ssa.Select:
-		fr.env[instr] = doSelect(fr, instr)
+		fr.regs[fr.ix(instr)] = doSelect(fr, instr)
 
 	default:
 		panic(fmt.Sprintf("unexpected instruction: %T", instr))
@@ -583,20 +678,25 @@ func callSSA(i *interpreter, caller *frame, callpos token.Pos, fn *ssa.Function,
 		fn:     fn,
 	}
 	if fn.Parent() == nil {
-		name := fn.String()
+		fi, ok := i.fnInfo[fn]
+		if !ok {
+			name := fn.String()
+			fi = &fnInfo{name: name, ext: lookupExternal(fn, name)}
+			i.fnInfo[fn] = fi
+		}
 		if len(i.replaced) > 0 {
-			if r, ok := i.replaced[name]; ok {
-				i.stubsHit[name]++
+			if r, ok := i.replaced[fi.name]; ok {
+				i.stubsHit[fi.name]++
 				return call(i, caller, callpos, r, args)
 			}
 		}
-		if ext := lookupExternal(fn, name); ext != nil {
-			return ext(fr, args)
+		if fi.ext != nil {
+			return fi.ext(fr, args)
 		}
 		if fn.Blocks == nil {
-			panic(unsupported{"no code for function: " + name})
+			panic(unsupported{"no code for function: " + fi.name})
 		}
-		if fn.Pkg != nil {
+		if fn.Pkg != nil && i.inited[fn.Pkg] != 2 {
 			i.ensureInit(fn.Pkg)
 		}
 	}
@@ -604,30 +704,34 @@ func callSSA(i *interpreter, caller *frame, callpos token.Pos, fn *ssa.Function,
 		panic(unsupported{"uninstantiated generic function " + fn.String()})
 	}
 	i.depth++
+	fr.depth = i.depth
 	if i.depth > maxDepth {
 		panic(unsupported{"call depth exceeded in " + fn.String()})
 	}
-	defer func() { i.depth-- }()
 	if i.funcsHit != nil && i.initing == 0 {
 		i.funcsHit[fn]++
 	}
 
-	fr.env = make(map[ssa.Value]value, 16)
+	fr.fi = i.regInfo(fn)
+	fr.regs = i.getRegs(fr.fi.n)
 	fr.block = fn.Blocks[0]
 	fr.locals = make([]value, len(fn.Locals))
 	for k, l := range fn.Locals {
 		fr.locals[k] = zero(mustDeref(l.Type()))
-		fr.env[l] = &fr.locals[k]
+		fr.regs[fr.ix(l)] = &fr.locals[k]
 	}
 	for k, p := range fn.Params {
-		fr.env[p] = args[k]
+		fr.regs[fr.ix(p)] = args[k]
 	}
 	for k, fv := range fn.FreeVars {
-		fr.env[fv] = env[k]
+		fr.regs[fr.ix(fv)] = env[k]
 	}
 	for fr.block != nil {
 		runFrame(fr)
 	}
+	i.putRegs(fr.regs)
+	fr.regs = nil
+	i.depth--
 	return fr.result
 }
 
@@ -652,6 +756,7 @@ func runFrame(fr *frame) {
 		fr.panicking = true
 		fr.panic = r
 		fr.runDefers()
+		fr.i.depth = fr.depth
 		fr.block = fr.fn.Recover
 	}()
 
@@ -695,6 +800,7 @@ func visitInitInstr(fr *frame, instr ssa.Instruction) (k continuation, ok bool) 
 	}
 	defer func() {
 		if r := recover(); r != nil {
+			fr.i.depth = fr.depth
 			why := panicString(r)
 			if v, isv := instr.(ssa.Value); isv {
 				var pv value = poison{why}
@@ -705,9 +811,9 @@ func visitInitInstr(fr *frame, instr ssa.Instruction) (k continuation, ok bool) 
 					}
 					pv = t
 				}
-				fr.env[v] = pv
+				fr.regs[fr.ix(v)] = pv
 			} else if st, iss := instr.(*ssa.Store); iss {
-				if addr, oka := fr.env[st.Addr].(*value); oka && addr != nil {
+				if addr, oka := fr.get(st.Addr).(*value); oka && addr != nil {
 					*addr = poison{why}
 				} else if g, okg := st.Addr.(*ssa.Global); okg {
 					cell := value(poison{why})
@@ -747,7 +853,7 @@ func executePhis(fr *frame) []ssa.Instruction {
 			fr.phitemps = append(fr.phitemps, fr.get(phi.Edges[predIndex]))
 		}
 		for i, phi := range phis {
-			fr.env[phi.(*ssa.Phi)] = fr.phitemps[i]
+			fr.regs[fr.ix(phi.(*ssa.Phi))] = fr.phitemps[i]
 		}
 	}
 	return nonPhis
@@ -788,6 +894,8 @@ func newInterpreter(prog *ssa.Program, sizes types.Sizes) *interpreter {
 		maxSteps: 20_000_000,
 		funcsHit: map[*ssa.Function]int{},
 		stubsHit: map[string]int{},
+		fnInfo:   map[*ssa.Function]*fnInfo{},
+		regInfos: map[*ssa.Function]*regInfo{},
 	}
 	if runtimePkg := prog.ImportedPackage("runtime"); runtimePkg != nil {
 		i.runtimeErrorString = runtimePkg.Type("errorString").Object().Type()
